@@ -27,7 +27,7 @@ NoCfg == [nref |-> 1, npeer |-> 1, ri4 |-> 5, pi4 |-> 10, cutoff |-> 8, interval
           timeout |-> 4, drift |-> 2]
 Cfgs == {NoCfg}
 VARIABLES cfg, phase, round, refSlots, peerSlots, refDone, peerDone, refOff, peerOff,
-          refCorr, peerCorr, corr, ndo, adjLog, cur, hist, l
+          refCorr, peerCorr, refOk, peerOk, corr, ndo, adjLog, cur, hist, l
 INSTANCE SyncRound
 
 Trace == ndJsonDeserialize("trace.ndjson")
@@ -48,6 +48,7 @@ TNext ==
                    ELSE IF Readable(r) \/ r.hung THEN "asleep" ELSE "opaque"
        /\ round' = r.rnd /\ ndo' = r.ndo
        /\ refOff' = r.ro /\ peerOff' = r.po /\ refCorr' = r.rc /\ peerCorr' = r.pc /\ corr' = r.corr
+       /\ refOk' = r.rok /\ peerOk' = r.pok
   /\ UNCHANGED <<refSlots, peerSlots, refDone, peerDone, adjLog, cur, hist>>
 TSpec == TInit /\ [][TNext]_<<vars, l>>
 
